@@ -135,8 +135,44 @@ def run(chk):
     shutil.rmtree(gdir, ignore_errors=True)
     os.makedirs(gdir)
     exe = os.path.join(common.BUILD, "bin", "gwb-grid")
-    for gi in range(4 if quick else 12):
+    for gi in range(7 if quick else 21):
         rng.seed("%d/c14-3/%d" % (chk.seed, gi))      # every world has its own stream: families do not disturb each other
+        gkind = ("cartesian", "cartesian", "cartesian", "cartesian", "sphere", "chunk", "annulus")[gi % 7]
+        if gkind != "cartesian":
+            # the grid types whose node positions are built in several stages (shells, blocks): built and evaluated with 1..N threads
+            wj, sph = area_world(rng, spherical=True, cross=True)
+            wj["features"].insert(0, {"model": "mantle layer", "name": "flow", "coordinates": [[-170, -80], [170, -80], [170, 80], [-170, 80]],
+                                      "velocity models": [{"model": "uniform raw", "velocity": [0.01, -0.02, 0.03]}]})
+            sanitize_numbers(wj)
+            dim = 2 if gkind == "annulus" else 3
+            if gkind == "sphere":
+                grid = ["grid_type = sphere", "dim = 3", "compositions = 2", "vtu_output_format = ASCII", "x_min = 0", "x_max = 0", "y_min = 0", "y_max = 0",
+                        "z_min = 3371000", "z_max = 6371000", "n_cell_x = 16", "n_cell_y = 16", "n_cell_z = 10"]
+            elif gkind == "chunk":
+                grid = ["grid_type = chunk", "dim = 3", "compositions = 2", "vtu_output_format = ASCII", "x_min = -20", "x_max = 25", "y_min = -15", "y_max = 20",
+                        "z_min = 5371000", "z_max = 6371000", "n_cell_x = 9", "n_cell_y = 7", "n_cell_z = 5"]
+            else:
+                grid = ["grid_type = annulus", "dim = 2", "compositions = 2", "vtu_output_format = ASCII", "x_min = 0", "x_max = 0",
+                        "z_min = 3371000", "z_max = 6371000", "n_cell_x = 4", "n_cell_y = 4", "n_cell_z = 12"]
+            outs = []
+            for j in ([1, 2, 4, 7] if quick else [1, 2, 3, 4, 8, 16, 40]):
+                d = os.path.join(gdir, "g%d_j%d" % (gi, j))
+                os.makedirs(d)
+                json.dump(wj, open(os.path.join(d, "w.wb"), "w"))
+                open(os.path.join(d, "g.grid"), "w").write("\n".join(grid) + "\n")
+                rc, o, e = common.sh([exe, "-j", str(j), "w.wb", "g.grid"], cwd=d, timeout=600)
+                chk.evaluations += 1
+                vtu = os.path.join(d, "w.vtu")
+                if rc != 0 or not os.path.exists(vtu):
+                    viol.append(("gwb-grid fails with -j %d (rc=%d): %s" % (j, rc, (o + e)[-300:]), {"world": wj, "grid": grid, "threads": j}))
+                    continue
+                outs.append((j, vtu))
+            for j, f in outs[1:]:
+                chk.nontriv(("grid", gi, j))
+                if not filecmp.cmp(outs[0][1], f, shallow=False):
+                    viol.append(("gwb-grid output (%s grid) differs between -j %d and -j %d" % (gkind, outs[0][0], j), {"world": wj, "grid": grid, "threads": j}))
+                    break
+            continue
         wj, sph = area_world(rng, spherical=False, cross=True)
         # a layer under everything with a velocity, so that the 3-component data set is not all zero
         wj["features"].insert(0, {"model": "mantle layer", "name": "flow", "coordinates": [[-1e6, -1e6], [1e6, -1e6], [1e6, 1e6], [-1e6, 1e6]],
